@@ -49,8 +49,9 @@ def replay(arg):
         return amap.get(mz, {}).get(ma, 700 + ma)      # an isotope number of the other element: not an isotope here
 
     # the private table's real name: any hashable will do as a name, also a falsy one
-    realname = {PUB: PUB, "T1": rng.choice(["T1", "", 0, "my table", "T1"])}
+    realname = {PUB: PUB, "T1": rng.choice(["T1", "", 0, "my table", "T1"]), "T2": rng.choice(["T2", "second table", 2, ("a", "tuple")])}
     binding["table_name"] = repr(realname["T1"])
+    binding["table2_name"] = repr(realname["T2"])
     tables = {PUB: periodictable.elements}         # the tables the caller still holds (model variable `held`)
     elems = {PUB: dict((mz, periodictable.elements[zmap[mz]]) for mz in (1, 8))}   # kept element objects per table
     seen = {}        # model key (tab, z, a, q) -> real object
